@@ -244,13 +244,26 @@ def run_r5(ctx, rule):
         sy = sym(f)
         fc = [(bb, sy.operand(t["args"][0])) for bb, t in f.calls() if norm(util.cname(t)).endswith("Lit::from_code")]
         rule.check(any(mask(e, ("l", 2)) for bb, e in fc), "%s/key-mask" % name, "%s looks up the even key (code & !1)" % name, f.loc())
-    # the closures that xor the polarity back out (get, and the old value of insert)
-    for name in ("LitMap::get::{closure#0}", "LitMap::insert::{closure#0}"):
-        f = afn(facts, name)
-        sy = sym(f)
-        fc = [(bb, sy.operand(t["args"][0])) for bb, t in f.calls() if norm(util.cname(t)).endswith("Lit::from_code")]
-        ok = any(e[0] == "bin" and e[1] == "BitXor" and code_of(e[2], ("l", 2)) and e[3][0] == "bin" and e[3][1] == "BitAnd" and e[3][3] == ("c", 1) for bb, e in fc)
-        rule.check(ok, "%s/polarity-out" % name, "%s returns found ^ polarity(key)" % name, f.loc())
+    # the polarity is xor-ed back out of what was found (in the function itself or in a closure of it)
+    for name in ("LitMap::get", "LitMap::insert"):
+        ok = False
+        where = ""
+        for i, f in facts.fns.items():
+            if not norm(i).startswith(AIG + name) or f.crate != "flussab_aiger":
+                continue
+            sy = sym(f)
+            for bb, t in f.calls():
+                if not norm(util.cname(t)).endswith("Lit::from_code"):
+                    continue
+                e = sy.operand(t["args"][0])
+                if e[0] == "bin" and e[1] == "BitXor":
+                    for a, b in ((e[2], e[3]), (e[3], e[2])):
+                        is_code = a[0] == "call" and norm(a[2]).endswith("Lit::code") and not (f.kind != "Closure" and a[3][0] in (("l", 2), ("l", 3)))
+                        is_pol = b[0] == "bin" and b[1] == "BitAnd" and b[3] == ("c", 1)
+                        if is_code and is_pol:
+                            ok = True
+                            where = f.loc(bb)
+        rule.check(ok, "%s/polarity-out" % name, "%s returns found ^ polarity(key)" % name, where)
     # transfer: the returned literal carries the polarity difference lit ^ def.output
     f = afn(facts, "Renumber::transfer")
     sy = sym(f)
